@@ -528,6 +528,77 @@ pub fn bypassed_dim_programs() -> Vec<(Prog, String)> {
     out
 }
 
+/// A DIM SHARED of a record / static array that stands AFTER the first call of a SUB using the variable, and a DIM
+/// statement whose first variable fails (trapped) before the record / static array next to it: both exist all the same.
+pub fn late_dim_programs() -> Vec<(Prog, String)> {
+    let mut out = vec![];
+    let decls: Vec<(&str, Elem, Vec<(i32, i32)>)> = vec![
+        ("static array", Elem::Scalar(Ty::Int), vec![(1, 3)]),
+        ("static array of records", Elem::Rec, vec![(0, 2)]),
+        ("static array of fixed strings", Elem::Fix3, vec![(1, 2)]),
+        ("record", Elem::Rec, vec![]),
+    ];
+    for (dl, elem, dims) in &decls {
+        for way in 0..3 {
+            let mut b = B::new();
+            let shape = Shape { dims: dims.clone(), explicit: true };
+            let mut d = if dims.is_empty() {
+                b.s(K::Dim { shared: false, redim: false, vars: vec![DimVar { name: "A".into(), ty: Some(DeclTy::Rec("Outer".into())), dims: vec![] }] })
+            } else {
+                dim_stmt(&mut b, "A", &shape, *elem)
+            };
+            // the location used for the probe: the first cell / the record's first field
+            let first: Vec<i32> = dims.iter().map(|(lo, _)| *lo).collect();
+            let (loc, val) = if dims.is_empty() {
+                (Expr::Field(Box::new(var("A")), "N".into()), num(5))
+            } else {
+                cell_writes("A", *elem, &first, 5).remove(0)
+            };
+            let (label, prog) = match way {
+                0 | 1 => {
+                    // DIM SHARED after the first call of the SUB that uses the variable (way 1: the SUB only reads it)
+                    if let K::Dim { shared, .. } = &mut d.k {
+                        *shared = true;
+                    }
+                    let mut body = vec![];
+                    if way == 0 {
+                        body.push(b.assign(loc.clone(), val.clone()));
+                    }
+                    body.push(b.print(vec![st("sub"), st("["), loc.clone(), st("]")]));
+                    let id = b.id();
+                    let sub = SubDef { id, name: "Touch".into(), is_function: false, params: vec![], body, is_static: false };
+                    // (whether a value written before the DIM statement runs survives it is not decided here: the module
+                    // assigns before it reads)
+                    let main = vec![
+                        b.s(K::Call("Touch".into(), vec![])),
+                        d,
+                        b.assign(loc.clone(), val.clone()),
+                        b.print(vec![st("main"), st("["), loc.clone(), st("]")]),
+                        b.s(K::Call("Touch".into(), vec![])),
+                    ];
+                    (if way == 0 { "DIM SHARED after the first call of a SUB that writes the variable" } else { "DIM SHARED after the first call of a SUB that reads the variable" }, Prog { types: rec_types(), main, subs: vec![sub], declare: true, ..Default::default() })
+                }
+                _ => {
+                    // DIM B%(N%), A ...: the first variable fails (N% = -1) under ON ERROR RESUME NEXT
+                    if let K::Dim { vars, .. } = &mut d.k {
+                        vars.insert(0, DimVar { name: "B%".into(), ty: None, dims: vec![(None, var("N%"))] });
+                    }
+                    let main = vec![
+                        b.s(K::OnErrorResumeNext),
+                        b.assign(var("N%"), num(-1)),
+                        d,
+                        b.assign(loc.clone(), val.clone()),
+                        b.print(vec![st("main"), st("["), loc.clone(), st("]")]),
+                    ];
+                    ("an earlier variable of the same DIM statement fails under ON ERROR RESUME NEXT", Prog { types: rec_types(), main, ..Default::default() })
+                }
+            };
+            out.push((prog, format!("DIM bypassed: {} / {}", dl, label)));
+        }
+    }
+    out
+}
+
 /// REDIM inside a SUB: of an array that the module declared SHARED (the module's array gets the new bounds and
 /// every subprogram sees them) and of a name the module did not share (a local array).
 pub fn redim_in_sub_programs() -> Vec<(Prog, String)> {
